@@ -11,6 +11,14 @@ CHECKS = {
    text="Full Cartesian products of a boundary alphabet of receiver dates (month ends, leap days, century years, negative years, both range ends) x sign-uniform durations (years to +-547000, months, weeks, days, time parts around 24h/48h) x {add, subtract} x {constrain, reject, absent}; all ordered date pairs of the alphabet and ALL ordered pairs of days of 2019-2022 (plus 1899-1901, 1999-2001 in thorough) x {until, since} x 6 largest-unit settings; depth-2 chains (add then add, add then measure back) so that non-initial states are receivers. Each transition is compared with R2 (AddISODate / DifferenceISODate transcribed from the specification, i64) and with the laws add(until)=end, since=-until, subtract(d)=add(-d), sign-uniform, balanced.",
    note="Trusted: R2 (validated on every run against the literal linear-search formulation on a 1/7 slice of the dense window and against add(until)=end on every pair). Values outside the alphabets are not covered; ISO calendar only (the crate implements date arithmetic for no other calendar).",
    ref="3/C04"),
+ "C06": dict(cat="model_checking", tech="bounded exhaustive product sweeps and nanosecond range walks on the real code, lock-step against an exact i128 reference model",
+   text="432 boundary times x all sign-uniform combinations of per-field duration alphabets {0, 1, wrap-1, wrap, 2^31+1, field maximum (up to 3.6e24 ns, far above 2^63)} for PlainTime add/subtract; 32 boundary instants (range ends, +-1, ms/s/day boundaries, negative values) x the same durations for Instant add/subtract with exact range check, plus durations with any date field (must be refused); a range walk over EVERY nanosecond of [-3e6, +3e6] and of the first/last 2e6 ns of the instant range for epoch_milliseconds = floor(ns/1e6) and from_epoch_milliseconds; all ordered pairs of the time and instant alphabets x 8 largest-unit settings for until/since (exact difference, balanced, since = -until, b.add(a.since(b)) = a); every time within 1000 ns of a second/minute/hour/noon/midnight boundary x small steps (carry chain).",
+   note="Trusted: R3 (integer arithmetic mod 86400e9 and on the epoch line; duration fields are integral doubles converted exactly to i128). Durations within 5% of the 2^53 s limit are left to C09. Instant differences whose balanced field exceeds 2^53 are executed but not compared (not representable).",
+   ref="3/C06"),
+ "C07": dict(cat="exploration", tech="bounded exhaustive sweep of every admissible (unit, increment) x 9 modes x complete residue battery on the real public entry points, against an exact integer rounding model",
+   text="For PlainTime::round, PlainDateTime::round (4 dates incl. both range ends), to_ixdtf_string of PlainTime/PlainDateTime/Instant with every fractional-digit precision and minute precision, Instant::round (all 1480 (unit, n) pairs with unit*n dividing 86400e9 ns, odd and even), and until/since of PlainTime, Instant, PlainDateTime with smallestUnit+increment+mode: every admissible increment of every unit, all 9 modes, multiples k in {0,1,2,middle,last,(negative and range-end ones for instants)} and residues {0,1,floor(I/2)-1,floor(I/2),floor(I/2)+1,I-1} - every residue 0..I-1 for I up to 20,000 ns (quick) / 2,000,000 ns (thorough) - mirrored to negative values. Oracle R4: result is floor or ceil multiple, chosen by comparing 2*remainder with the increment and by quotient parity for halfEven; since = -until with negated mode.",
+   note="Trusted: R4. Time-of-day rounding follows RoundTime's frame (quantity counted from the start of the enclosing unit, which decides halfEven parity). Negative instants with sign-dependent modes (trunc/expand/halfTrunc/halfExpand) are judged for neighbour membership only: the specification rounds instants as if positive, the property names the direction; both readings are accepted.",
+   ref="3/C07"),
 }
 
 NOT_APPLICABLE = {}
